@@ -201,6 +201,16 @@ let handle (ext : SS.t list -> SS.t option) line =
       let (st, frames) = m_can_listener !fbe (udp = "1") (fd = "1") (buf_of_hex d) stale in
       show_lstat st ^ SS.concat "" (List.map (fun f -> " " ^ hex_of_buf f) frames)
   | ["XH0"; fill] | ["XV0"; fill] -> x_pdu := List.init 1500 (fun _ -> n_of_hex fill); "OK"
+  | ["XH"; udp; d; st] | ["XV"; udp; d; st] when SS.length st > 0 && st.[0] = 'S' ->
+      (* the buffer of main holds the given bytes (padded with the pattern) before this datagram arrives *)
+      let given = buf_of_hex (SS.sub st 1 (SS.length st - 1)) in
+      let k = List.length given in
+      x_pdu := (if k >= 1500 then List.filteri (fun i _ -> i < 1500) given else given @ List.init (1500 - k) (fun _ -> n_of_hex "fe"));
+      let vss = (match t with "XV" :: _ -> true | _ -> false) in
+      if vss then
+        (let ((stt, evs), pdu) = m_vss_recv !fbe (udp = "1") !x_pdu (buf_of_hex d) in x_pdu := pdu; show_lstat stt ^ show_events evs)
+      else
+        (let ((stt, evs), pdu) = m_hello_recv !fbe (udp = "1") !x_pdu (buf_of_hex d) in x_pdu := pdu; show_lstat stt ^ show_events evs)
   | ["XH"; udp; d] ->
       let ((st, evs), pdu) = m_hello_recv !fbe (udp = "1") !x_pdu (buf_of_hex d) in
       x_pdu := pdu; show_lstat st ^ show_events evs
